@@ -311,6 +311,12 @@ var otherKinds = []func() interface{}{
 	func() interface{} { return false },
 	func() interface{} { return json.Number("-1") },
 	func() interface{} { return json.Number("1.5") },
+	func() interface{} { return json.Number("7.0") },
+	func() interface{} { return json.Number("1e2") },
+	func() interface{} { return json.Number("3e9") },
+	func() interface{} { return json.Number("-0") },
+	func() interface{} { return json.Number("1.2e1") },
+	func() interface{} { return json.Number("0.0") },
 	func() interface{} { return json.Number("-3.5e2") },
 	func() interface{} { return "str" },
 	func() interface{} { return true },
